@@ -72,6 +72,9 @@ func roleOf(a sdk.Address) string {
 		}
 	}
 	h := hex.EncodeToString(a)
+	if len(a) != 20 {
+		return "addr:" + h // an address of unusual length: the full bytes (it may extend or truncate a known one)
+	}
 	if len(h) > 8 {
 		h = h[:8]
 	}
